@@ -57,6 +57,6 @@ NotBad == ~IsBad(c)
 ASSUME MemSane
 MemGroupSeq == SetToSeq(MemGroups)
 ConfigSeq == FlattenSeq([k \in 1..Len(MemGroupSeq) |-> SetToSeq({DescribeCf(x) : x \in MemGroupConfigs(MemGroupSeq[k])})])
-ASSUME PrintT(<<"CONFIGS", NumConfigs, Len(ConfigSeq)>>)
+ASSUME PrintT(<<"CONFIGS", NumConfigsOf(MemGroups), Len(ConfigSeq)>>)
 ASSUME ndJsonSerialize("configs.ndjson", ConfigSeq)
 =============================================================================
